@@ -149,7 +149,11 @@ def run(program, rep, tier):
                     and n.args[-2].value in ('_cached', '_cache'):
                 tg = [ast.Attribute(ast.Name('x', ast.Load()),
                                     n.args[-2].value, ast.Store())]
+            flat = []
             for t in tg:
+                flat.extend(t.elts if isinstance(t, (ast.Tuple, ast.List))
+                            else [t])
+            for t in flat:
                 if isinstance(t, ast.Attribute) and t.attr in ('_cached',
                                                                '_cache'):
                     n_w += 1
@@ -172,6 +176,24 @@ def run(program, rep, tier):
         if not sets or not (isinstance(sets[-1].sym.node, ast.Constant)
                             and sets[-1].sym.node.value is False):
             bad = ex
+    order_bad = None
+    for ex in exits:
+        tr = ex.state.trace
+        i_flag = [i for i, e in enumerate(tr) if e.kind == 'store'
+                  and e.target is not None
+                  and e.target.text == 'self._cached']
+        i_val = [i for i, e in enumerate(tr) if e.kind == 'store'
+                 and e.target is not None and e.target.text == 'self._cache']
+        if i_flag and i_val and min(i_val) < min(i_flag):
+            order_bad = tr[min(i_val)]
+    rep.check(order_bad is None, 'C12.writers', cl.where,
+              order_bad.node if order_bad is not None
+              else 'self._cached = False; self._cache = None',
+              'clear() lowers the flag before it drops the value',
+              'clear() drops the cached value before lowering the flag: an '
+              'access made while the old value is finalised (re-entrancy) '
+              'sees "cached" and gets None instead of a fresh load',
+              line=cl.node.lineno)
     rep.check(bad is None, 'C12.writers', cl.where,
               bad.node if bad is not None and bad.node is not None
               else 'self._cached = False',
@@ -188,6 +210,25 @@ def run(program, rep, tier):
               '`cached` does not return the flag: it misreports falsy '
               'resources', line=cp.node.lineno)
     # ---- paths --------------------------------------------------------------------
+    # the cache state is read only by the Handle itself
+    for g in program.all_functions():
+        if g.cls is H:
+            continue
+        for n in ast.walk(g.node):
+            if isinstance(n, ast.Attribute) and n.attr in ('_cache',
+                                                           '_cached') \
+                    and isinstance(n.ctx, ast.Load):
+                rep.bad('C12.paths', g.where, n,
+                        'the cache state of a handle is read outside Handle: '
+                        'this access path decides by itself (e.g. on the '
+                        'truth value of the cached object) instead of going '
+                        'through the handle call', line=n.lineno)
+    # [] on a map reaches the handle call (the lookup plan of C11)
+    from rules import c11
+    n0 = len(rep.obs)
+    c11.check_lookup(program, rep)
+    for o in rep.obs[n0:]:
+        o.rule = 'C12.paths'
     for s in subs:
         for nm in ('__call__', 'clear', 'cached'):
             if nm in s.methods:
